@@ -323,7 +323,7 @@ class C13:
             con.execute("CREATE TABLE xonsh_history (inp TEXT, rtn INTEGER, tsb REAL, tse REAL, sessionid TEXT, out TEXT, info TEXT, frequency INTEGER default 1, cwd TEXT)")
             r2 = random.Random(case["rseed"] + "/rows")
             for i in range(case["rows"]):
-                con.execute("INSERT INTO xonsh_history (inp, rtn, tsb, tse, sessionid) VALUES (?,?,?,?,?)", (r2.choice(["ls", "del x", "dup", "dup", "echo " + "z" * 200]), 0, 1.6e9 + i, 1.6e9 + i + 0.5, "old"))
+                con.execute("INSERT INTO xonsh_history (inp, rtn, tsb, tse, sessionid) VALUES (?,?,?,?,?)", (r2.choice(["ls", "del x", "del y", "del " + "w" * 300, "dup", "dup", "dup2", "dup2", "echo " + "z" * 200]), 0, 1.6e9 + i, 1.6e9 + i + 0.5, "old"))
             con.commit()
             con.close()
 
@@ -375,7 +375,7 @@ class C13:
                 rec.violation(f"sqlite/{op}/kill-at-{sc}/integrity-check-fails", case, {"k": k, "msg": ok[:80]})
             elif op == "append" and [x for x in post if x[1] < 2e9] != pre:
                 rec.violation(f"sqlite/{op}/kill-at-{sc}/committed-rows-lost", case, {"k": k})
-            elif op != "append" and post != pre and post != want and not (set(post) <= set(pre) and set(want) <= set(post)):
+            elif op != "append" and post != pre and post != want:
                 rec.violation(f"sqlite/{op}/kill-at-{sc}/neither-old-nor-new-rows", case, {"k": k, "pre": len(pre), "want": len(want), "post": len(post)})
 
         def judge(how, detail):
@@ -388,7 +388,7 @@ class C13:
                 rec.violation(f"sqlite/{op}/{how}/integrity-check-fails", case, dict(detail, msg=ok[:80]))
             elif op == "append" and [x for x in post if x[1] < 2e9] != pre:
                 rec.violation(f"sqlite/{op}/{how}/committed-rows-lost", case, detail)
-            elif op != "append" and post != pre and post != want and not (set(post) <= set(pre) and set(want) <= set(post)):
+            elif op != "append" and post != pre and post != want:
                 rec.violation(f"sqlite/{op}/{how}/neither-old-nor-new-rows", case, dict(detail, pre=len(pre), want=len(want), post=len(post)))
 
         # failing calls: the k-th write-class syscall returns ENOSPC / EIO instead of being killed
